@@ -146,6 +146,26 @@ Theorem C13_unit_agnostic :
 Proof. exact spec_op_unit_agnostic. Qed.
 Print Assumptions C13_unit_agnostic.
 
+(* (e) operands with a density value unit (photlam/flam/wlam: Spectrum.to divides the values by the unit
+   factor).  Sums and differences of two densities, and a density times / over a unitless spectrum with the
+   default fill value 0, are again unit-covariant: grid times the factor, values divided by it.
+   _partial: products, quotients and powers of two densities are not densities and are not covered. *)
+Theorem C13_unit_agnostic_density_partial :
+  forall (fx : bool) (o : binop) (s1 s2 : spectrum) (m : sampling) (f : fillv) (u1 u2 : wunit),
+  vu s1 <> VNone -> vu s2 <> VNone -> (o = OAdd \/ o = OSub) ->
+  spec_op fx o (to_wu s1 u1) (to_wu s2 u2) (scale_sampling (ufac (wu s1) u1) m) (fscale (/ ufac (wu s1) u1) f)
+  = rmap_res (fun r => rto_density r u1) (spec_op fx o s1 s2 m f).
+Proof. exact spec_op_unit_agnostic_density. Qed.
+Print Assumptions C13_unit_agnostic_density_partial.
+
+Theorem C13_unit_agnostic_density_times_unitless_partial :
+  forall (fx : bool) (o : binop) (s1 s2 : spectrum) (m : sampling) (u1 u2 : wunit),
+  vu s1 <> VNone -> vu s2 = VNone -> (o = OMul \/ o = ODiv) ->
+  spec_op fx o (to_wu s1 u1) (to_wu s2 u2) (scale_sampling (ufac (wu s1) u1) m) (FScalar 0)
+  = rmap_res (fun r => rto_density r u1) (spec_op fx o s1 s2 m (FScalar 0)).
+Proof. exact spec_op_unit_agnostic_density_left. Qed.
+Print Assumptions C13_unit_agnostic_density_times_unitless_partial.
+
 (* the 16 wavelength factors of the source are ratios of metres-per-unit: conversions compose and are
    positive, so [to_wu] denotes the same physical spectrum *)
 Theorem C13_unit_factors_consistent :
